@@ -185,3 +185,122 @@ theorem select_spec {s : State} (inv : Inv s) (a : Nat) (ha : a ≤ u32Max) :
       rcases o4 with ⟨h1, h2, _⟩ | h
       · exact Or.inl ⟨h1, h2⟩
       · exact Or.inr h
+
+theorem write_spec {m : Segs} {seg : Active} (ok : ActiveOk m seg) (d : List UInt8) :
+    (seg.buf.length + d.length ≤ seg.maxLen ∧ seg.write d = ({ seg with buf := seg.buf ++ d }, .ok)) ∨
+    (seg.buf.length + d.length > seg.maxLen ∧
+      seg.write d = (seg, .diag (.overflow d.length (seg.maxLen - seg.buf.length)))) := by
+  unfold Active.write Active.remaining
+  rw [if_pos ok.1]
+  by_cases c : d.length ≤ seg.maxLen - seg.buf.length
+  · left; refine ⟨by have := ok.1; omega, ?_⟩; simp only [c, if_true]
+  · right; refine ⟨by omega, ?_⟩; simp only [c, if_false]
+
+/-- appending `d` to the active buffer (it fits): invariant kept, nothing already emitted changes, the new
+bytes land exactly at the old cursor `base + |buf|` -/
+theorem grow_spec {s : State} {seg : Active} (inv : Inv s) (ha : s.active = some seg) (d : List UInt8)
+    (fits : seg.buf.length + d.length ≤ seg.maxLen) (extra : List (Nat × Nat))
+    (hex : ∀ p ∈ extra, seg.base ≤ p.1 ∧ p.1 + p.2 ≤ seg.base + seg.buf.length + d.length) :
+    let s' : State := { s with active := some { seg with buf := seg.buf ++ d }, pending := extra ++ s.pending }
+    Inv s' ∧ (∀ k, (image s k).isSome = true → image s' k = image s k) ∧
+    (∀ k, ¬ (seg.base + seg.buf.length ≤ k ∧ k < seg.base + seg.buf.length + d.length) → image s' k = image s k) ∧
+    (∀ i, i < d.length → image s' (seg.base + seg.buf.length + i) = d[i]?) := by
+  intro s'
+  obtain ⟨a1, a2, a3, a4⟩ := inv.2.1 seg ha
+  have himg : ∀ k, ¬ (seg.base + seg.buf.length ≤ k ∧ k < seg.base + seg.buf.length + d.length) →
+      image s' k = image s k := by
+    intro k hk
+    simp only [image, s', ha, List.length_append]
+    by_cases c : seg.base ≤ k ∧ k < seg.base + seg.buf.length
+    · rw [if_pos (by omega), if_pos c, List.getElem?_append_left (by omega)]
+    · rw [if_neg (by omega), if_neg c]
+  refine ⟨⟨inv.1, fun sg hs => ?_, fun p hp => ?_⟩, fun k hk => himg k ?_, himg, fun i hi => ?_⟩
+  · simp only [s', Option.some.injEq] at hs; subst hs
+    exact ⟨by simp only [List.length_append]; omega, a2, a3, a4⟩
+  · simp only [s', List.mem_append] at hp
+    rcases hp with hp | hp
+    · right; exact ⟨_, rfl, (hex p hp).1, by simp only [List.length_append]; have := (hex p hp).2; omega⟩
+    · rcases inv.2.2 p hp with h | ⟨sg, hs, h1, h2⟩
+      · exact Or.inl h
+      · rw [ha] at hs; cases hs
+        right; exact ⟨_, rfl, h1, by simp only [List.length_append]; omega⟩
+  · intro hc
+    simp only [image, ha] at hk
+    rw [if_neg (by omega), a4 k (by omega) (by omega)] at hk
+    simp at hk
+  · simp only [image, s', List.length_append]
+    rw [if_pos (by omega), List.getElem?_append_right (by omega)]
+    congr 1; omega
+
+theorem eta_active {s : State} {seg : Active} (h : s.active = some seg) : { s with active := some seg } = s := by
+  cases s; simp_all
+
+theorem cur_bounds (seg : Active) (hb : seg.base ≤ u32Max) : seg.base ≤ seg.cur ∧ seg.cur ≤ seg.base + seg.buf.length := by
+  unfold Active.cur
+  have := Nat.mod_le seg.buf.length 4294967296
+  omega
+
+/-- every operation except a rewrite: no panic, invariant kept, nothing already emitted changes -/
+theorem step_nonrewrite {s : State} (inv : Inv s) (op : Op) (wf : Op.wf s op)
+    (hop : ∀ a d, op ≠ .rewrite a d) :
+    (step s op).2 ≠ .panic ∧ Inv (step s op).1 ∧
+    ∀ k, (image s k).isSome = true → image (step s op).1 k = image s k := by
+  cases op with
+  | rewrite a d => exact absurd rfl (hop a d)
+  | select a =>
+    obtain ⟨h1, h2, _, h4⟩ := select_spec inv a wf
+    refine ⟨?_, h1, fun k _ => by rw [show step s (.select a) = changeSegment s a from rfl, h2]⟩
+    show (changeSegment s a).2 ≠ .panic
+    rcases h4 with ⟨_, h⟩ | ⟨_, h, _⟩ <;> rw [h] <;> simp
+  | close =>
+    obtain ⟨c1, c2, c3, c4, _⟩ := close_spec inv
+    refine ⟨by show (closeSegment s).2 ≠ .panic; rw [c1]; simp, c2, fun k _ => ?_⟩
+    show image (closeSegment s).1 k = image s k
+    rw [image_none c3, c4]
+  | append d =>
+    cases ha : s.active with
+    | none => simp only [step, ha]; exact ⟨by simp, inv, by intros; first | rfl | trivial⟩
+    | some seg =>
+      have ok := inv.2.1 seg ha
+      simp only [step, ha]
+      rcases write_spec ok d with ⟨f1, f2⟩ | ⟨f1, f2⟩
+      · rw [f2]
+        obtain ⟨g1, g2, _, _⟩ := grow_spec inv ha d f1 [] (fun p hp => by simp at hp)
+        exact ⟨by simp, g1, g2⟩
+      · rw [f2]; simp only [eta_active ha]
+        exact ⟨by simp, inv, by intros; first | rfl | trivial⟩
+  | place d =>
+    cases ha : s.active with
+    | none => simp only [step, ha]; exact ⟨by simp, inv, by intros; first | rfl | trivial⟩
+    | some seg =>
+      have ok := inv.2.1 seg ha
+      simp only [step, ha]
+      rcases write_spec ok d with ⟨f1, f2⟩ | ⟨f1, f2⟩
+      · rw [f2]
+        have hb : seg.base ≤ u32Max := by unfold u32Max; have := ok.2.1; have := ok.2.2.1; omega
+        obtain ⟨g1, g2, _, _⟩ := grow_spec inv ha d f1 [(seg.cur, d.length)] (fun p hp => by
+          simp only [List.mem_singleton] at hp; subst hp
+          have := cur_bounds seg hb; simp only; omega)
+        exact ⟨by simp, g1, g2⟩
+      · rw [f2]; simp only [eta_active ha]
+        exact ⟨by simp, inv, by intros; first | rfl | trivial⟩
+  | align n =>
+    cases ha : s.active with
+    | none => simp only [step, ha]; exact ⟨by simp, inv, by intros; first | rfl | trivial⟩
+    | some seg =>
+      have ok := inv.2.1 seg ha
+      simp only [step, ha]
+      by_cases c0 : seg.cur % n = 0
+      · simp only [c0, if_true]; exact ⟨by simp, inv, by intros; first | rfl | trivial⟩
+      · simp only [c0, if_false]
+        have hr : seg.remaining = some (seg.maxLen - seg.buf.length) := by
+          unfold Active.remaining; rw [if_pos ok.1]
+        rw [hr]; simp only
+        by_cases c1 : n - seg.cur % n ≤ seg.maxLen - seg.buf.length
+        · simp only [c1, if_true]
+          rcases write_spec ok (List.replicate (n - seg.cur % n) 0xBE) with ⟨f1, f2⟩ | ⟨f1, f2⟩
+          · rw [f2]
+            obtain ⟨g1, g2, _, _⟩ := grow_spec inv ha _ f1 [] (fun p hp => by simp at hp)
+            exact ⟨by simp, g1, g2⟩
+          · simp only [List.length_replicate] at f1; have := ok.1; omega
+        · simp only [c1, if_false]; exact ⟨by simp, inv, by intros; first | rfl | trivial⟩
